@@ -1,39 +1,857 @@
-//! exploration (temporary)
-use rust_dsymbols::covers::finite_universal_cover;
+//! C16 — simplification keeps a 3D tiling a valid manifold of the same topology.
+//!
+//! Inputs: pseudo-toroidal covers of the literature corpus and of enumerated 3D symbols with
+//! spherical tiles and vertex figures; finite universal covers and fixed-point-free subgroup
+//! covers of 3D symbols with finite orbifold group; renumberings of all of them.
+//!
+//! Ops: `simplify` / `simplify_inv` (Spec observables only) and every rewriting primitive through
+//! the `simplify::verif_hooks` wrappers, on the argument values the real pipeline produces: the
+//! pipeline of `simplify()` is replayed here with the hooks (merge_all, then the fix_* / split
+//! moves in the order `simplify` applies them, outputs fed forward) and every (primitive, input,
+//! args, output) is its own case, compared with the Lean model.
+//!
+//! Case ids: every candidate input owns a block of `SLOTS * nshards` ids, all of whose used ids
+//! belong to one shard, so only that shard builds the covers and replays the pipeline.
+use rust_dsymbols::covers::{finite_universal_cover, subgroup_cover};
+use rust_dsymbols::delaney2d::is_spherical;
 use rust_dsymbols::delaney3d::pseudo_toroidal_cover;
-use rust_dsymbols::dsets::DSet;
-use rust_dsymbols::dsyms::PartialDSym;
-use rust_dsymbols::simplify::simplify;
-use std::time::Instant;
+use rust_dsymbols::derived::{as_dsym, build_set, canonical, minimal_image, subsymbol};
+use rust_dsymbols::dsets::{DSet, PartialDSet};
+use rust_dsymbols::dsyms::{DSym, PartialDSym};
+use rust_dsymbols::fpgroups::free_words::FreeWord;
+use rust_dsymbols::fundamental_group::{fundamental_group, inner_edges};
+use rust_dsymbols::simplify::{simplify, verif_hooks as hk};
+use std::panic::{catch_unwind, AssertUnwindSafe};
+use verif_harness::dsgen::{all_vs, dsets, random_perm1, random_vs, Tab};
+use verif_harness::{enc_list, Ctx, Rng};
 
-fn main() {
-    let txt = std::fs::read_to_string("/verif/corpus/euclidean3d.txt").unwrap();
-    for line in txt.lines() {
-        if line.starts_with('#') || line.trim().is_empty() {
+const SLOTS: usize = 320;
+
+// ---------------------------------------------------------------------------------
+// encoders
+
+fn enc_ds<T: DSet>(ds: &T) -> String {
+    let mut s = format!("{} {}", ds.size(), ds.dim());
+    for d in 1..=ds.size() {
+        for i in 0..=ds.dim() {
+            s.push(' ');
+            s.push_str(&ds.op(i, d).unwrap_or(0).to_string());
+        }
+    }
+    s
+}
+
+fn enc_oo(o: Option<Option<PartialDSet>>) -> String {
+    match o {
+        None => "N".into(),
+        Some(None) => "E".into(),
+        Some(Some(ds)) => format!("D {}", enc_ds(&ds)),
+    }
+}
+
+fn enc_o(o: Option<PartialDSet>) -> String {
+    match o {
+        None => "N".into(),
+        Some(ds) => format!("D {}", enc_ds(&ds)),
+    }
+}
+
+fn enc_pairs(ps: &[(usize, usize)]) -> String {
+    let mut s = ps.len().to_string();
+    for &(a, b) in ps {
+        s.push_str(&format!(" {} {}", a, b));
+    }
+    s
+}
+
+fn enc_sym_out(o: Option<PartialDSym>) -> String {
+    match o {
+        None => "N".into(),
+        Some(ds) => format!("D {}", Tab::from_dsym(&ds).enc()),
+    }
+}
+
+fn tab_to_ds(t: &Tab) -> PartialDSet {
+    t.to_partial_dset()
+}
+
+// ---------------------------------------------------------------------------------
+// the domain of the property, decided on plain tables (independent of the library)
+
+/// every component of the D-set restricted to the three consecutive indices `a, a+1, a+2` is a
+/// sphere: no fixed points, and #(a,a+1)-orbits - #(a,a+2)-orbits + #(a+1,a+2)-orbits = 2
+fn components_are_spheres(t: &Tab, a: usize) -> bool {
+    let n = t.size;
+    let idx = [a, a + 1, a + 2];
+    let mut comp = vec![0usize; n + 1];
+    let mut ncomp = 0;
+    for d in 1..=n {
+        if comp[d] != 0 {
             continue;
         }
-        let ds: PartialDSym = line.parse().unwrap();
-        let t0 = Instant::now();
-        let cov = pseudo_toroidal_cover(&ds);
-        let t1 = t0.elapsed();
-        match cov {
-            Some(c) => {
-                let t0 = Instant::now();
-                let out = simplify(&c);
-                let t2 = t0.elapsed();
-                println!("{} cover size {} ({:?}) simplify -> {:?} ({:?})", line, c.size(), t1, out.map(|o| o.size()), t2);
+        ncomp += 1;
+        comp[d] = ncomp;
+        let mut stack = vec![d];
+        while let Some(e) = stack.pop() {
+            for &i in &idx {
+                let f = t.op[i][e];
+                if f == 0 || f == e {
+                    return false;
+                }
+                if comp[f] == 0 {
+                    comp[f] = ncomp;
+                    stack.push(f);
+                }
             }
-            None => println!("{} no cover", line),
         }
     }
-    for s in ["<1.1:1 3:1,1,1,1:3,3,3>", "<1.1:1 3:1,1,1,1:4,3,3>", "<1.1:2 3:2,2,2,2:4,3,3>"] {
-        let ds: PartialDSym = s.parse().unwrap();
-        let t0 = Instant::now();
-        let c = finite_universal_cover(&ds);
-        let t1 = t0.elapsed();
-        let t0 = Instant::now();
-        let out = simplify(&c);
-        let t2 = t0.elapsed();
-        println!("{} fuc size {} ({:?}) simplify -> {:?} ({:?})", s, c.size(), t1, out.map(|o| o.size()), t2);
+    let mut chi = vec![0i64; ncomp + 1];
+    for (i, j, sign) in [(a, a + 1, 1i64), (a, a + 2, -1), (a + 1, a + 2, 1)] {
+        let mut seen = vec![false; n + 1];
+        for d in 1..=n {
+            if !seen[d] {
+                for e in t.orbit2(i, j, d) {
+                    seen[e] = true;
+                }
+                chi[comp[d]] += sign;
+            }
+        }
     }
+    (1..=ncomp).all(|c| chi[c] == 2)
+}
+
+fn in_domain(t: &Tab) -> bool {
+    t.dim == 3 && t.is_complete_set() && t.far_commute() && components_are_spheres(t, 0) && components_are_spheres(t, 1)
+}
+
+// ---------------------------------------------------------------------------------
+// pending cases and id blocks
+
+struct Pending {
+    op: &'static str,
+    tags: String,
+    input: String,
+    run: Box<dyn FnOnce() -> String>,
+}
+
+fn pend<F: FnOnce() -> String + 'static>(out: &mut Vec<Pending>, op: &'static str, tags: &str, input: String, f: F) {
+    out.push(Pending { op, tags: tags.to_string(), input, run: Box::new(f) });
+}
+
+struct Blocks {
+    next_block: u64,
+}
+
+impl Blocks {
+    /// the block of the next candidate input; `build` runs only in the owning shard
+    fn run<F: FnOnce() -> Vec<Pending>>(&mut self, ctx: &mut Ctx, build: F) {
+        let stride = ctx.nshards as u64;
+        let span = SLOTS as u64 * stride;
+        let k = self.next_block;
+        self.next_block += 1;
+        let (mine, off) = match ctx.only {
+            Some(o) => (o / span == k, o % stride),
+            None => (k % stride == ctx.shard as u64, ctx.shard as u64),
+        };
+        if !mine {
+            for _ in 0..span {
+                ctx.skip();
+            }
+            return;
+        }
+        let mut all = build();
+        if all.len() > SLOTS {
+            // keep the head (simplify cases) and an evenly spaced selection of the rest
+            let head = 12.min(all.len());
+            let rest: Vec<Pending> = all.split_off(head);
+            let want = SLOTS - head;
+            let total = rest.len();
+            for (k, p) in rest.into_iter().enumerate() {
+                if (k * want) / total != ((k + 1) * want) / total {
+                    all.push(p);
+                }
+            }
+        }
+        let mut pending = all.into_iter();
+        for j in 0..span {
+            if j % stride == off {
+                if let Some(p) = pending.next() {
+                    let Pending { op, tags, input, run } = p;
+                    ctx.case(op, &tags, move || input, run);
+                    continue;
+                }
+            }
+            ctx.skip();
+        }
+    }
+}
+
+fn pre<T, F: FnOnce() -> T>(f: F) -> Option<T> {
+    catch_unwind(AssertUnwindSafe(f)).ok()
+}
+
+fn size_tag(n: usize) -> &'static str {
+    match n {
+        0..=24 => "size<=24",
+        25..=48 => "size<=48",
+        49..=96 => "size<=96",
+        97..=192 => "size<=192",
+        193..=384 => "size<=384",
+        _ => "size>384",
+    }
+}
+
+// ---------------------------------------------------------------------------------
+// hook cases
+
+type OO = Option<Option<PartialDSet>>;
+
+fn case_oo(out: &mut Vec<Pending>, op: &'static str, src: &str, ds: &PartialDSet, extra: String, nt: bool, f: fn(&PartialDSet) -> OO) {
+    let tags = format!("{}src={} {}", if nt { "nt " } else { "" }, src, size_tag(ds.size()));
+    let d = ds.clone();
+    let input = if extra.is_empty() { enc_ds(ds) } else { format!("{} {}", enc_ds(ds), extra) };
+    pend(out, op, &tags, input, move || enc_oo(f(&d)));
+}
+
+fn case_collapse(out: &mut Vec<Pending>, src: &str, ds: &PartialDSet, remove: Vec<usize>, connector: usize) {
+    let tags = format!("nt src={} {}", src, size_tag(ds.size()));
+    let d = ds.clone();
+    let input = format!("{} {} {}", enc_ds(ds), enc_list(&remove), connector);
+    pend(out, "collapse", &tags, input, move || enc_oo(hk::collapse(&d, remove, connector)));
+}
+
+fn case_reglue(out: &mut Vec<Pending>, src: &str, ds: &PartialDSet, pairs: Vec<(usize, usize)>, index: usize) {
+    let tags = format!("nt src={} {}", src, size_tag(ds.size()));
+    let d = ds.clone();
+    let input = format!("{} {} {}", enc_ds(ds), enc_pairs(&pairs), index);
+    pend(out, "reglue", &tags, input, move || enc_o(hk::reglue(&d, pairs, index)));
+}
+
+fn case_grow(out: &mut Vec<Pending>, src: &str, ds: &PartialDSet, m: usize) {
+    let tags = format!("nt src={} {}", src, size_tag(ds.size()));
+    let d = ds.clone();
+    pend(out, "grow", &tags, format!("{} {}", enc_ds(ds), m), move || format!("D {}", enc_ds(&hk::grow(&d, m))));
+}
+
+fn case_cut_face(out: &mut Vec<Pending>, src: &str, ds: &PartialDSet, d1: usize, d2: usize) {
+    let tags = format!("nt src={} {}", src, size_tag(ds.size()));
+    let d = ds.clone();
+    pend(out, "cut_face", &tags, format!("{} {} {}", enc_ds(ds), d1, d2), move || format!("D {}", enc_ds(&hk::cut_face(&d, d1, d2))));
+}
+
+fn case_cut_tile(out: &mut Vec<Pending>, src: &str, ds: &PartialDSet, cut: Vec<usize>) {
+    let tags = format!("nt src={} {}", src, size_tag(ds.size()));
+    let d = ds.clone();
+    pend(out, "cut_tile", &tags, format!("{} {}", enc_ds(ds), enc_list(&cut)), move || format!("D {}", enc_ds(&hk::cut_tile(&d, &cut))));
+}
+
+fn case_squeeze(out: &mut Vec<Pending>, src: &str, ds: &PartialDSet, d1: usize, e1: usize) {
+    let tags = format!("nt src={} {}", src, size_tag(ds.size()));
+    let d = ds.clone();
+    pend(out, "squeeze", &tags, format!("{} {} {}", enc_ds(ds), d1, e1), move || format!("D {}", enc_ds(&hk::squeeze_tile_3d(&d, d1, e1))));
+}
+
+fn case_skeleton(out: &mut Vec<Pending>, src: &str, ds: &PartialDSet) {
+    let tags = format!("nt src={} {}", src, size_tag(ds.size()));
+    let d = ds.clone();
+    pend(out, "skeleton", &tags, enc_ds(ds), move || {
+        let (e2i, reps, edges) = hk::make_skeleton(&d);
+        format!("{} {} {}", enc_list(&e2i), enc_list(&reps), enc_pairs(&edges))
+    });
+}
+
+/// `r(ds, i, j, d)` of simplify.rs on a complete set
+fn rr(ds: &PartialDSet, i: usize, j: usize, d: usize) -> usize {
+    ds.r(i, j, d).unwrap_or(0)
+}
+
+fn o(ds: &PartialDSet, i: usize, d: usize) -> usize {
+    ds.op(i, d).unwrap()
+}
+
+/// the junk list `merge_tiles` hands to `collapse`
+fn tiles_junk(ds: &PartialDSet) -> (Vec<(usize, usize)>, Vec<usize>) {
+    let inner = inner_edges(&as_dsym(ds));
+    let junk = inner.iter().cloned().filter(|&(_, i)| i == 3).flat_map(|(d, _)| ds.orbit([3], d)).collect();
+    (inner, junk)
+}
+
+/// the junk list `merge_facets` hands to `collapse`
+fn facets_junk(ds: &PartialDSet) -> Vec<usize> {
+    ds.orbit_reps([2, 3], 1..ds.size()).into_iter().filter(|&d| rr(ds, 2, 3, d) == 2).flat_map(|d| ds.orbit([2, 3], d)).collect()
+}
+
+fn dual_ds(ds: &PartialDSet) -> PartialDSet {
+    let n = ds.dim();
+    build_set(ds.size(), n, |i, d| ds.op(n - i, d))
+}
+
+/// `merge_all` with every inner call as its own case; returns the new state (None = empty)
+fn step_merge_all(out: &mut Vec<Pending>, src: &str, ds: &PartialDSet, detail: bool, full_limit: usize) -> Option<Option<PartialDSet>> {
+    case_oo(out, if ds.size() <= full_limit { "merge_all" } else { "merge_all_s" }, src, ds, String::new(), true, hk::merge_all);
+    if detail {
+        let mut cur = ds.clone();
+        for k in 0..6 {
+            match k % 3 {
+                0 => {
+                    if let Some((inner, junk)) = pre(|| tiles_junk(&cur)) {
+                        let nt = !junk.is_empty();
+                        if cur.size() <= full_limit {
+                            case_oo(out, "merge_tiles", src, &cur, String::new(), nt, hk::merge_tiles);
+                        }
+                        case_oo(out, "merge_tiles_g", src, &cur, enc_pairs(&inner), nt, hk::merge_tiles);
+                        if nt {
+                            case_collapse(out, src, &cur, junk, 3);
+                        }
+                    }
+                    match pre(|| hk::merge_tiles(&cur)) {
+                        Some(Some(Some(n))) => cur = n,
+                        Some(Some(None)) => break,
+                        Some(None) => {}
+                        None => break,
+                    }
+                }
+                1 => {
+                    if let Some(junk) = pre(|| facets_junk(&cur)) {
+                        let nt = !junk.is_empty();
+                        case_oo(out, "merge_facets", src, &cur, String::new(), nt, hk::merge_facets);
+                        if nt {
+                            case_collapse(out, src, &cur, junk, 2);
+                        }
+                    }
+                    match pre(|| hk::merge_facets(&cur)) {
+                        Some(Some(Some(n))) => cur = n,
+                        Some(Some(None)) => break,
+                        Some(None) => {}
+                        None => break,
+                    }
+                }
+                _ => match pre(|| dual_ds(&cur)) {
+                    Some(n) => cur = n,
+                    None => break,
+                },
+            }
+        }
+    }
+    match pre(|| hk::merge_all(ds)) {
+        Some(Some(x)) => Some(x),
+        Some(None) => Some(Some(ds.clone())),
+        None => None,
+    }
+}
+
+/// argument values of the inner calls of `fix_local_1_vertex`
+fn detail_fix1(out: &mut Vec<Pending>, src: &str, ds: &PartialDSet) {
+    let _ = pre(|| {
+        for c in ds.orbit_reps([1, 2], 1..ds.size()) {
+            if ds.op(1, c) == ds.op(2, c) {
+                let d = o(ds, 0, o(ds, 1, c));
+                let e = o(ds, 1, o(ds, 0, c));
+                let f = o(ds, 3, d);
+                let g = o(ds, 3, e);
+                let pairs = vec![(d, o(ds, 1, e)), (e, o(ds, 1, d)), (f, o(ds, 1, g)), (g, o(ds, 1, f))];
+                case_reglue(out, src, ds, pairs.clone(), 1);
+                if let Some(tmp) = hk::reglue(ds, pairs, 1) {
+                    let orb = tmp.orbit([0, 1, 3], c);
+                    case_collapse(out, src, &tmp, orb, 3);
+                }
+                return;
+            }
+        }
+    });
+}
+
+/// argument values of the inner calls of `fix_local_2_vertex`
+fn detail_fix2(out: &mut Vec<Pending>, src: &str, ds0: &PartialDSet) {
+    let mut local: Vec<Pending> = vec![];
+    let ok = pre(|| {
+        for d in ds0.orbit_reps([1, 2], 1..ds0.size()) {
+            if rr(ds0, 1, 2, d) == 2 {
+                let e = o(ds0, 3, o(ds0, 2, d));
+                if d == e || d == o(ds0, 1, o(ds0, 0, e)) || d == o(ds0, 0, o(ds0, 1, e)) {
+                    continue;
+                }
+                let mut ds = ds0.clone();
+                let e = o(&ds, 2, o(&ds, 1, d));
+                for x in [d, e] {
+                    if rr(&ds, 0, 1, x) > 3 {
+                        let (a, b) = (o(&ds, 0, x), o(&ds, 0, o(&ds, 1, x)));
+                        case_cut_face(&mut local, src, &ds, a, b);
+                        ds = hk::cut_face(&ds, a, b);
+                    }
+                }
+                let (a, b) = (o(&ds, 1, o(&ds, 0, d)), o(&ds, 1, o(&ds, 0, e)));
+                case_squeeze(&mut local, src, &ds, a, b);
+                ds = hk::squeeze_tile_3d(&ds, a, b);
+                let orb = ds.orbit([0, 1, 3], d);
+                case_collapse(&mut local, src, &ds, orb, 3);
+                return;
+            }
+        }
+    });
+    let _ = ok;
+    out.append(&mut local);
+}
+
+/// argument values of the inner call of `fix_non_disk_face`
+fn detail_fnd(out: &mut Vec<Pending>, src: &str, ds: &PartialDSet, res: &PartialDSet) {
+    // the four pairs are read off the result: the chambers whose 1-neighbour changed
+    let mut pairs = vec![];
+    for d in 1..=ds.size() {
+        let e = o(res, 1, d);
+        if o(ds, 1, d) != e && d <= e {
+            pairs.push((d, e));
+        }
+    }
+    case_reglue(out, src, ds, pairs, 1);
+}
+
+/// seeded direct calls on a complete D-set
+fn seeded(out: &mut Vec<Pending>, src: &str, ds: &PartialDSet, rng: &mut Rng, rounds: usize) {
+    let n = ds.size();
+    if n < 2 {
+        return;
+    }
+    let pick = |rng: &mut Rng| 1 + rng.below(n);
+    case_skeleton(out, src, ds);
+    for round in 0..rounds {
+        case_grow(out, src, ds, [0usize, 1, 2, 8][rng.below(4)]);
+        // reglue: a matching on a union of index-orbits (valid), sometimes perturbed
+        {
+            let index = rng.below(4);
+            let mut members: Vec<usize> = vec![];
+            for _ in 0..(1 + rng.below(3)) {
+                let d = pick(rng);
+                for e in [d, o(ds, index, d)] {
+                    if !members.contains(&e) {
+                        members.push(e);
+                    }
+                }
+            }
+            rng.shuffle(&mut members);
+            let mut pairs = vec![];
+            let mut k = 0;
+            while k < members.len() {
+                if k + 1 < members.len() && rng.chance(5, 6) {
+                    pairs.push((members[k], members[k + 1]));
+                    k += 2;
+                } else {
+                    pairs.push((members[k], members[k]));
+                    k += 1;
+                }
+            }
+            if rng.chance(1, 4) && !pairs.is_empty() {
+                let p = pairs[0];
+                pairs.push(if rng.chance(1, 2) { p } else { (p.1, p.0) });
+            }
+            case_reglue(out, src, ds, pairs, index);
+            // arbitrary pairs: the assertions of `set` may fire
+            let bad: Vec<(usize, usize)> = (0..(1 + rng.below(2))).map(|_| (pick(rng), pick(rng))).collect();
+            case_reglue(out, src, ds, bad, rng.below(5));
+            if round == 0 {
+                case_reglue(out, src, ds, vec![], 1);
+            }
+        }
+        // collapse: (2,3)-orbits of length 2 (connector 2), inner tile walls (connector 3), arbitrary sets
+        {
+            let d = pick(rng);
+            if rr(ds, 2, 3, d) == 2 {
+                case_collapse(out, src, ds, ds.orbit([2, 3], d), 2);
+            }
+            let d = pick(rng);
+            let rem = ds.orbit([3], d);
+            if collapse_terminates(ds, &rem, 3) {
+                case_collapse(out, src, ds, rem, 3);
+            }
+            let k = 1 + rng.below(3);
+            let mut rem: Vec<usize> = (0..k).map(|_| pick(rng)).collect();
+            if rng.chance(1, 3) {
+                rem.push(rem[0]);
+            }
+            let c = rng.below(4);
+            if collapse_terminates(ds, &rem, c) {
+                case_collapse(out, src, ds, rem, c);
+            }
+            if round == 0 {
+                case_collapse(out, src, ds, vec![], 3);
+                case_collapse(out, src, ds, (1..=n).collect(), 3);
+            }
+        }
+        // cut_face: two chambers of one face / arbitrary
+        {
+            let d = pick(rng);
+            let len = rr(ds, 0, 1, d).max(1);
+            let mut e = d;
+            for _ in 0..(1 + rng.below(len)) {
+                e = o(ds, 0, o(ds, 1, e));
+            }
+            case_cut_face(out, src, ds, d, e);
+            case_cut_face(out, src, ds, pick(rng), pick(rng));
+        }
+        // cut_tile: distinct chambers, no two 2-neighbours (valid); sometimes odd / repeated / empty
+        {
+            let m = 2 * (1 + rng.below(3));
+            let mut cut: Vec<usize> = vec![];
+            let mut guard = 0;
+            while cut.len() < m && guard < 200 {
+                guard += 1;
+                let d = pick(rng);
+                if !cut.contains(&d) && !cut.contains(&o(ds, 2, d)) && o(ds, 2, d) != d {
+                    cut.push(d);
+                }
+            }
+            if cut.len() == m {
+                case_cut_tile(out, src, ds, cut.clone());
+            }
+            match rng.below(6) {
+                0 => {
+                    cut.pop();
+                    case_cut_tile(out, src, ds, cut);
+                }
+                1 => {
+                    if !cut.is_empty() {
+                        cut[0] = cut[cut.len() - 1];
+                    }
+                    case_cut_tile(out, src, ds, cut);
+                }
+                2 => case_cut_tile(out, src, ds, vec![]),
+                _ => {}
+            }
+        }
+        // squeeze_tile_3d
+        case_squeeze(out, src, ds, pick(rng), pick(rng));
+    }
+}
+
+/// does every `while src2img[e] == 0` loop of `collapse` terminate on these arguments?
+fn collapse_terminates(ds: &PartialDSet, remove: &[usize], connector: usize) -> bool {
+    let n = ds.size();
+    let mut rem = vec![false; n + 1];
+    let mut cnt = 0;
+    for &d in remove {
+        if d >= 1 && d <= n && !rem[d] {
+            rem[d] = true;
+            cnt += 1;
+        }
+    }
+    if cnt == 0 || cnt >= n {
+        return true;
+    }
+    for i in 0..=ds.dim() {
+        if i == connector {
+            continue;
+        }
+        for d in 1..=n {
+            if rem[d] {
+                continue;
+            }
+            let mut e = match ds.op(i, d) {
+                Some(e) => e,
+                None => return true,
+            };
+            let mut steps = 0;
+            while rem[e] {
+                e = match ds.op(connector, e).and_then(|c| ds.op(i, c)) {
+                    Some(e) => e,
+                    None => return true,
+                };
+                steps += 1;
+                if steps > n + 1 {
+                    return false;
+                }
+            }
+        }
+    }
+    true
+}
+
+/// replay of `simplify()` with the hooks; every call is a case
+fn replay(out: &mut Vec<Pending>, src: &str, ds0: &PartialDSet, rng: &mut Rng, full_limit: usize, max_steps: usize) {
+    let mut detail_budget = 3usize;
+    let mut state = match step_merge_all(out, src, ds0, true, full_limit) {
+        Some(Some(ds)) => ds,
+        _ => return,
+    };
+    let mut seeded_done = 0;
+    for _step in 0..max_steps {
+        let mut changed = false;
+        let ops: [(&'static str, fn(&PartialDSet) -> OO); 4] = [
+            ("fix1", hk::fix_local_1_vertex),
+            ("fix2", hk::fix_local_2_vertex),
+            ("fnd", hk::fix_non_disk_face),
+            ("split_and_glue", hk::split_and_glue),
+        ];
+        for (name, f) in ops {
+            let res = pre(|| f(&state));
+            let nt = matches!(res, Some(Some(_)));
+            case_oo(out, name, src, &state, String::new(), nt, f);
+            match res {
+                None => return,
+                Some(None) => continue,
+                Some(Some(None)) => return,
+                Some(Some(Some(next))) => {
+                    match name {
+                        "fix1" => detail_fix1(out, src, &state),
+                        "fix2" => detail_fix2(out, src, &state),
+                        "fnd" => detail_fnd(out, src, &state, &next),
+                        _ => {}
+                    }
+                    if seeded_done < 2 && rng.chance(1, 3) {
+                        seeded(out, src, &next, rng, 1);
+                        seeded_done += 1;
+                    }
+                    let detail = detail_budget > 0;
+                    if detail {
+                        detail_budget -= 1;
+                    }
+                    state = match step_merge_all(out, src, &next, detail, full_limit) {
+                        Some(Some(ds)) => ds,
+                        _ => return,
+                    };
+                    changed = true;
+                    break;
+                }
+            }
+        }
+        if !changed {
+            break;
+        }
+    }
+    seeded(out, src, &state, rng, 1);
+}
+
+// ---------------------------------------------------------------------------------
+// simplify cases
+
+/// hyp: 0 = domain only, 1 = finite fundamental group, 2 = pseudo-toroidal cover of a corpus
+/// symbol, 3 = pseudo-toroidal cover of another symbol
+fn case_simplify(out: &mut Vec<Pending>, src: &str, hyp: usize, t: &Tab) {
+    let tags = format!("nt src={} hyp={} {}", src, hyp, size_tag(t.size));
+    let ds = tab_to_ds(t);
+    pend(out, "simplify", &tags, format!("{} {}", hyp, enc_ds(&ds)), move || enc_sym_out(simplify(&ds)));
+}
+
+/// the same input under several numberings, each simplified `runs` times; every output goes out
+/// together with the library's `canonical(minimal_image(_))` of it
+fn case_simplify_inv(out: &mut Vec<Pending>, src: &str, tabs: Vec<Tab>, runs: usize) {
+    let tags = format!("nt src={} {}", src, size_tag(tabs[0].size));
+    let mut input = format!("{} {}", tabs.len(), runs);
+    for t in &tabs {
+        input.push(' ');
+        input.push_str(&enc_ds(&tab_to_ds(t)));
+    }
+    pend(out, "simplify_inv", &tags, input, move || {
+        let mut s = String::new();
+        for t in &tabs {
+            let ds = tab_to_ds(t);
+            for _ in 0..runs {
+                match simplify(&ds) {
+                    None => s.push_str("N "),
+                    Some(res) => {
+                        let key = canonical(&minimal_image(&res));
+                        s.push_str(&format!("D {} {} ", Tab::from_dsym(&res).enc(), Tab::from_dsym(&key).enc()));
+                    }
+                }
+            }
+        }
+        s
+    });
+}
+
+fn renumberings(t: &Tab, rng: &mut Rng, k: usize) -> Vec<Tab> {
+    (0..k).map(|_| t.renumbered(&random_perm1(rng, t.size))).collect()
+}
+
+/// all cases of one manifold input
+fn input_cases(out: &mut Vec<Pending>, src: &str, hyp: usize, cov: &Tab, rng: &mut Rng, nren: usize, do_replay: bool, full_limit: usize, max_steps: usize) {
+    if !in_domain(cov) {
+        return;
+    }
+    case_simplify(out, src, hyp, cov);
+    let rens = renumberings(cov, rng, nren);
+    for r in &rens {
+        case_simplify(out, src, hyp, r);
+    }
+    if do_replay {
+        replay(out, src, &tab_to_ds(cov), rng, full_limit, max_steps);
+    }
+}
+
+fn has_spherical_parts(ds: &PartialDSym) -> bool {
+    let ok = |idx: [usize; 3]| {
+        let mut seen = vec![false; ds.size() + 1];
+        for d in 1..=ds.size() {
+            if !seen[d] {
+                for e in ds.orbit(idx, d) {
+                    seen[e] = true;
+                }
+                if !is_spherical(&subsymbol(ds, idx, d)) {
+                    return false;
+                }
+            }
+        }
+        true
+    };
+    ok([0, 1, 2]) && ok([1, 2, 3])
+}
+
+fn crystallographic(t: &Tab) -> bool {
+    (0..t.dim).all(|i| (1..=t.size).all(|d| t.v[i][d] <= 6 && t.v[i][d] != 5 && t.v[i][d] >= 1))
+}
+
+fn main() {
+    let mut ctx = Ctx::from_args();
+    let thorough = ctx.thorough();
+    let mut blocks = Blocks { next_block: 0 };
+    let full_limit = if thorough { 260 } else { 150 };
+    let max_steps = if thorough { 60 } else { 40 };
+    let nren = if thorough { 5 } else { 2 };
+
+    // (1) the literature corpus: pseudo-toroidal covers, renumberings of the symbol and of the cover
+    let corpus: Vec<String> = std::fs::read_to_string("/verif/corpus/euclidean3d.txt")
+        .expect("corpus")
+        .lines()
+        .filter(|l| !l.starts_with('#') && !l.trim().is_empty())
+        .map(|l| l.trim().to_string())
+        .collect();
+    for (k, line) in corpus.iter().enumerate() {
+        let mut rng = ctx.rng(1000 + k as u64);
+        let line = line.clone();
+        blocks.run(&mut ctx, move || {
+            let mut out = vec![];
+            let sym: PartialDSym = line.parse().expect("corpus symbol");
+            let base = Tab::from_dsym(&sym);
+            let Some(cov) = pre(|| pseudo_toroidal_cover(&sym)).flatten() else {
+                pend(&mut out, "corpus_cover", "nt src=corpus", base.enc(), || "N".to_string());
+                return out;
+            };
+            let cov = Tab::from_dsym(&cov);
+            pend(&mut out, "corpus_cover", "nt src=corpus", base.enc(), {
+                let c = cov.clone();
+                move || format!("D {}", c.enc())
+            });
+            // invariance: renumber the symbol (cover recomputed) and renumber the cover
+            let mut tabs = vec![cov.clone()];
+            for r in renumberings(&base, &mut rng, nren) {
+                if let Some(c) = pre(|| pseudo_toroidal_cover(&r.to_partial_dsym())).flatten() {
+                    tabs.push(Tab::from_dsym(&c));
+                }
+            }
+            tabs.extend(renumberings(&cov, &mut rng, nren));
+            case_simplify_inv(&mut out, "corpus", tabs, 3);
+            input_cases(&mut out, "corpus", 2, &cov, &mut rng, nren, true, full_limit, max_steps);
+            out
+        });
+    }
+
+    // (2) symbols with finite orbifold group: universal covers and fixed-point-free subgroup covers
+    let mut finite: Vec<&str> = vec![
+        "<1.1:1 3:1,1,1,1:3,3,3>",
+        "<1.1:1 3:1,1,1,1:4,3,3>",
+        "<1.1:2 3:2,2,2,2:4,3,3>",
+        "<1.1:1 3:1,1,1,1:3,3,4>",
+        "<1.1:1 3:1,1,1,1:3,2,3>",
+        "<1.1:1 3:1,1,1,1:4,2,4>",
+        "<1.1:1 3:1,1,1,1:3,2,5>",
+        "<1.1:1 3:1,1,1,1:2,2,2>",
+        "<1.1:1 3:1,1,1,1:3,3,2>",
+        "<1.1:1 3:1,1,1,1:4,3,2>",
+        "<1.1:1 3:1,1,1,1:2,3,4>",
+        "<1.1:1 3:1,1,1,1:5,2,5>",
+        "<1.1:1 3:1,1,1,1:6,2,4>",
+    ];
+    if thorough {
+        finite.push("<1.1:1 3:1,1,1,1:3,4,3>");
+        finite.push("<1.1:1 3:1,1,1,1:5,3,2>");
+        finite.push("<1.1:1 3:1,1,1,1:6,2,6>");
+    }
+    for (k, s) in finite.iter().enumerate() {
+        let nsub = if thorough { 40 } else { 12 };
+        // block 0: the universal cover; further blocks: one random subgroup each
+        for j in 0..=nsub {
+            let mut rng = ctx.rng(2000 + 100 * k as u64 + j as u64);
+            let s = s.to_string();
+            blocks.run(&mut ctx, move || {
+                let mut out = vec![];
+                let sym: PartialDSym = s.parse().expect("finite symbol");
+                if j == 0 {
+                    let cov = Tab::from_dsym(&finite_universal_cover(&sym));
+                    input_cases(&mut out, "finite-universal", 1, &cov, &mut rng, nren, cov.size <= 400, full_limit, max_steps);
+                } else {
+                    let fg = fundamental_group(&sym);
+                    let ng = fg.nr_generators() as isize;
+                    if ng == 0 {
+                        return out;
+                    }
+                    let nw = 1 + rng.below(2);
+                    let words: Vec<FreeWord> = (0..nw)
+                        .map(|_| {
+                            let len = 2 + rng.below(5);
+                            FreeWord::new((0..len).map(|_| {
+                                let g = 1 + rng.below(ng as usize) as isize;
+                                if rng.chance(1, 2) { g } else { -g }
+                            }))
+                        })
+                        .collect();
+                    let Some(cov) = pre(|| subgroup_cover(&sym, &words)) else { return out };
+                    let cov = Tab::from_dsym(&cov);
+                    let branch_free = (0..cov.dim).all(|i| (1..=cov.size).all(|d| cov.v[i][d] == 1));
+                    if branch_free && cov.size >= 2 {
+                        input_cases(&mut out, "finite-quotient", 1, &cov, &mut rng, nren, true, full_limit, max_steps);
+                    }
+                }
+                out
+            });
+        }
+    }
+
+    // (3) enumerated 3D symbols with spherical tiles and vertex figures that have a pseudo-toroidal cover
+    let nmax = if thorough { 3 } else { 2 };
+    let vals = [1usize, 2, 3, 4, 6];
+    let mut cand = 0u64;
+    for n in 1..=nmax {
+        for set in dsets(3, n, true, true, false) {
+            let norb: usize = (0..3).map(|i| set.orbit_reps2(i).len()).sum();
+            let syms: Vec<Tab> = if norb <= 6 && (thorough || n <= 1) {
+                all_vs(&set, &vals)
+            } else {
+                let mut rng = ctx.rng(3000 + cand);
+                let k = if thorough { 4000 } else { 600 };
+                (0..k).map(|_| random_vs(&set, &mut rng, &vals)).collect()
+            };
+            for t in syms {
+                cand += 1;
+                if !crystallographic(&t) {
+                    continue;
+                }
+                // cheap necessary condition first: positive curvature sums of both 2D parts
+                let pos = |a: usize| {
+                    let mut k = 0.0f64;
+                    for d in 1..=t.size {
+                        let m1 = (t.r(a, a + 1, d) * t.v[a][d]) as f64;
+                        let m2 = (t.r(a + 1, a + 2, d) * t.v[a + 1][d]) as f64;
+                        k += 1.0 / m1 + 1.0 / m2 - 0.5;
+                    }
+                    k > 1e-9
+                };
+                if !(pos(0) && pos(1)) {
+                    continue;
+                }
+                let mut rng = ctx.rng(4000 + cand);
+                let do_replay = thorough || cand % 4 == 0;
+                blocks.run(&mut ctx, move || {
+                    let mut out = vec![];
+                    let sym = t.to_partial_dsym();
+                    if !pre(|| has_spherical_parts(&sym)).unwrap_or(false) {
+                        return out;
+                    }
+                    let Some(cov) = pre(|| pseudo_toroidal_cover(&sym)).flatten() else { return out };
+                    let cov = Tab::from_dsym(&cov);
+                    input_cases(&mut out, "universe", 3, &cov, &mut rng, if thorough { 2 } else { 1 }, do_replay, full_limit, max_steps);
+                    out
+                });
+            }
+        }
+    }
+    ctx.finish();
 }
